@@ -385,6 +385,50 @@ package mail
 //@   loop 4 invariant[C12:inv] mwinv(mw) && sticky(mw) && msgok(msg)
 //@ func mail.msgWriter.getMultipartBoundary
 //@   requires[C12:inv] msg != nil
+// byte count: whatever reaches the destination is counted, on every path (also when a producer or the sink fails);
+// the destination of a render is a plain writer, not one of the renderer's own part writers (under == nil)
+//@ pred counted(mw *mail.msgWriter) = mw.writer == old(mw.writer) && mw.bytesWritten - old(mw.bytesWritten) == mw.writer.sinkacc - old(mw.writer.sinkacc)
+//@ pred plainsink(mw *mail.msgWriter) = allocated(mw.writer) && mw.writer.under == nil
+//@ func mail.msgWriter.writeHeader (key, values)
+//@   ensures[C12:count] counted(mw)
+//@ func mail.msgWriter.startMP (mimeType, boundary) (b)
+//@   requires[C12:plain-sink] plainsink(mw)
+//@   ensures[C12:count] counted(mw)
+//@ func mail.msgWriter.stopMP
+//@   requires[C12:plain-sink] plainsink(mw)
+//@   ensures[C12:count] counted(mw)
+//@ func mail.msgWriter.newPart (header)
+//@   requires[C12:plain-sink] plainsink(mw)
+//@   ensures[C12:count] counted(mw)
+//@   ensures[C12:part-writer-on-us] mw.err == nil ==> mw.partWriter.under == mw
+//@ func mail.msgWriter.writeBody (writeFunc, encoding)
+//@   requires[C12:plain-sink] plainsink(mw)
+//@   requires[C12:part-writer-on-us] mw.depth > 0 ==> mw.partWriter.under == mw
+//@   ensures[C12:count] counted(mw)
+//@ func mail.msgWriter.writePart (part, charset)
+//@   requires[C12:plain-sink] plainsink(mw)
+//@   ensures[C12:count] counted(mw)
+//@ func mail.msgWriter.addFiles (files, isAttachment)
+//@   requires[C12:plain-sink] plainsink(mw)
+//@   ensures[C12:count] counted(mw)
+//@   loop 1 invariant[C12:count] counted(mw) && plainsink(mw)
+//@   loop 2 invariant[C12:count] counted(mw) && plainsink(mw)
+//@   loop 3 invariant[C12:count] counted(mw) && plainsink(mw)
+//@ func mail.msgWriter.writeGenHeader (msg)
+//@   ensures[C12:count] counted(mw)
+//@   loop 2 invariant[C12:count] counted(mw)
+//@ func mail.msgWriter.writePreformattedGenHeader (msg)
+//@   ensures[C12:count] counted(mw)
+//@   loop 2 invariant[C12:count] counted(mw)
+//@ func mail.msgWriter.writeMsg (msg)
+//@   requires[C12:plain-sink] plainsink(mw)
+//@   ensures[C12:count] counted(mw)
+//@   loop 1 invariant[C12:count] counted(mw) && plainsink(mw)
+//@   loop 3 invariant[C12:count] counted(mw) && plainsink(mw)
+//@   loop 4 invariant[C12:count] counted(mw) && plainsink(mw)
+// the line breaker of writeBody writes to its own out (a local buffer) and nowhere else
+//@ func mail.base64LineBreaker.Close () (err)
+//@   modifies[C12:frame] l.out.sinkacc, l.out.wfailed, l.out.col, l.out.maxcol, l.out.bare
 
 // ---------------------------------------------------------------------------
 // C06  Recipients are exactly To+Cc+Bcc, and Bcc stays hidden
